@@ -162,7 +162,7 @@ func c03Cuts(r *rand.Rand, b []byte, lay *pkt.Layout, thorough bool) [][]int {
 
 func c03Run(c *h.Ctx) {
 	r := c.Rng("c03")
-	n := c.Pick(700, 9000)
+	n := c.Pick(2000, 9000)
 	pkt.GetKeys()
 	for i := 0; i < n; i++ {
 		id := fmt.Sprintf("p%d", i)
